@@ -13,6 +13,7 @@ CONSTANTS
   PruneCache = TRUE
   CapPending = TRUE
   MaxHist = 7
+  WithdrawOnExpiry = TRUE
   EraseOnLookup = FALSE
 INVARIANTS Reach_FarFutureCapped
 VIEW View
